@@ -1399,6 +1399,23 @@ def bounded(ctx, verdict, intensive=False):
         msg = bd_oracle(line, meta, io)
         if msg:
             fails.append((0 if meta['nconn'] == 1 else 1, len(line), line, meta, io, msg))
+    # the verdicts of this driver are read off goroutine states; a case that fails in the batch is run again alone,
+    # twice, in fresh processes, and is reported only if it fails again (a violation placed by parking goroutines is
+    # deterministic; a judgement disturbed by machine load is not)
+    confirmed = []
+    for f in sorted(fails, key=lambda f: f[:2])[:4]:
+        _, _, line, meta, io, msg = f
+        again = 0
+        for k in range(2):
+            rc2, log2, impl2, _ = bd_run(ctx, [line], 'bounded_alone%d' % k)
+            io2 = impl2.get(line.split()[0])
+            if io2 is None or bd_oracle(line, meta, io2):
+                again += 1
+        if again:
+            confirmed.append(f)
+        else:
+            ctx.notes.append('bounded-connection case "%s" failed once inside the batch (%s) and passed twice when run alone: not reported' % (line[:120], msg[:120]))
+    fails = confirmed + [f for f in fails if f not in confirmed][:0]
     for _, _, line, meta, io, msg in sorted(fails, key=lambda f: f[:2])[:1]:
         verdict.oracle_failure('bounded:' + re.sub(r'\d+', 'N', msg)[:50], '%s oracle (session pair over bounded connections): ' % ctx.pid + msg,
                                dict(kind='window', driver='bd', case=line, meta=meta, implementation=io, schedule=bd_describe(line, meta, io), failing_cases=len(fails),
